@@ -103,13 +103,29 @@ def parseCfg (t : String) (rules : List Rule) : Option Cfg :=
            videoPts := vp.map UInt8.ofNat, hasVideo := hv = "1" }
   | _ => none
 
-def parsePkt (t : String) : Option (Pkt × UInt16 × UInt32) :=
-  match fields t with
-  | ["k", s, p, q, ts, m, prof, hx, ra, rb] => do
+/-- packet token; the optional last field is `0` when the relay push is refused after the rewrite -/
+def parsePkt (t : String) : Option ((Pkt × UInt16 × UInt32) × Bool) :=
+  let go (s p q ts m prof hx ra rb : String) (sent : Bool) : Option ((Pkt × UInt16 × UInt32) × Bool) := do
     let e ← parseExt prof hx
-    some ({ ssrc := UInt32.ofNat (← s.toNat?), pt := UInt8.ofNat (← p.toNat?), seq := UInt16.ofNat (← q.toNat?),
-            ts := UInt32.ofNat (← ts.toNat?), marker := m = "1", ext := e },
-          UInt16.ofNat (← ra.toNat?), UInt32.ofNat (← rb.toNat?))
+    some (({ ssrc := UInt32.ofNat (← s.toNat?), pt := UInt8.ofNat (← p.toNat?), seq := UInt16.ofNat (← q.toNat?),
+             ts := UInt32.ofNat (← ts.toNat?), marker := m = "1", ext := e },
+           UInt16.ofNat (← ra.toNat?), UInt32.ofNat (← rb.toNat?)), sent)
+  match fields t with
+  | ["k", s, p, q, ts, m, prof, hx, ra, rb] => go s p q ts m prof hx ra rb true
+  | ["k", s, p, q, ts, m, prof, hx, ra, rb, snt] => go s p q ts m prof hx ra rb (snt ≠ "0")
+  | _ => none
+
+/-- legacy `bridge_rewrite_to(params)`: `params,<offset>,<fixed|->,<pt|->,<src.dst|->,<seq|->,<tsoff|->,<strip>` -/
+def parseParams (t : String) : Option Cfg :=
+  match fields t with
+  | ["params", off, fx, pt, dt, is, io, st] => do
+    let off ← off.toNat?; let fx ← optNat fx; let pt ← optNat pt; let is ← optNat is; let io ← optNat io
+    let dt ← (if dt = "-" then some none else
+      match dt.splitOn "." with
+      | [a, b] => do some (some (UInt8.ofNat (← a.toNat?), UInt8.ofNat (← b.toNat?)))
+      | _ => none)
+    some (cfgOfParams { ssrcOffset := UInt32.ofNat off, fixedOutSsrc := fx.map UInt32.ofNat, payloadType := pt.map UInt8.ofNat,
+                        dtmf := dt, initSeq := is.map UInt16.ofNat, initTsOff := io.map UInt32.ofNat, strip := st = "1" })
   | _ => none
 
 def showPkt (p : Pkt) : String :=
@@ -125,15 +141,22 @@ def showStreams (ss : Streams) : String :=
 def bridgeRun (args : List String) : String :=
   let ruleToks := args.filter (·.startsWith "rule,")
   let pktToks := args.filter (·.startsWith "k,")
-  match args.find? (·.startsWith "cfg,"), ruleToks.mapM parseRule, pktToks.mapM parsePkt with
-  | some ct, some rules, some pkts =>
-    match parseCfg ct rules with
-    | none => "bad-cfg"
-    | some c =>
-      let outs := forwardAll c [] pkts
-      let fin := runAll c [] pkts
-      " ".intercalate (outs.map (fun o => (if o.video then "v:" else "a:") ++ showPkt o.pkt) ++ [showStreams fin])
-  | _, _, _ => "bad-args"
+  let cfg : Option Cfg :=
+    match args.find? (·.startsWith "params,") with
+    | some pt => parseParams pt
+    | none =>
+      match args.find? (·.startsWith "cfg,"), ruleToks.mapM parseRule with
+      | some ct, some rules => parseCfg ct rules
+      | _, _ => none
+  match cfg, pktToks.mapM parsePkt with
+  | some c, some pkts =>
+    let ins := pkts.map (·.1)
+    let outs := forwardAll c [] ins
+    let fin := runAll c [] ins
+    let shown := (outs.zip (pkts.map (·.2))).map (fun (o, sent) =>
+      if sent then (if o.video then "v:" else "a:") ++ showPkt o.pkt else "drop")
+    " ".intercalate (shown ++ [showStreams fin])
+  | _, _ => "bad-args"
 
 end bridge
 
